@@ -310,6 +310,7 @@ def matchAddress (N : Net Addr Prefix) (ranges : List (MRange Prefix)) (address 
 /-- everything downstream of the `client_ip` var -/
 structure Consumers where
   placeholder : Bytes            -- `{http.vars.client_ip}`
+  template : Bytes               -- templates' `{{.ClientIP}}` (tplcontext.go): the var, a port split off if it has one
   logField : Bytes               -- access log `request.client_ip`
   clientMatch : Bool             -- `client_ip` matcher
   remoteMatch : Bool             -- `remote_ip` matcher (reads `r.RemoteAddr`, not the var)
@@ -320,6 +321,7 @@ deriving DecidableEq, Repr
     prints, so `prepareRequest` always takes its `ParseAddr` branch — checked by the stream.) -/
 def consumers (N : Net Addr Prefix) (ranges : List (MRange Prefix)) (c : Conn) (clientIP : Bytes) : Consumers :=
   { placeholder := clientIP
+    template := hostOrAll clientIP
     logField := clientIP
     clientMatch := if c.earlyData then false else matchAddress N ranges clientIP
     remoteMatch := if c.earlyData then false else matchAddress N ranges c.remoteAddr
